@@ -498,6 +498,10 @@ def run_batch(prop: str, tier: str, base_seed: int, jobs: int) -> int:
         extra_cov['exhaustive'] = bool(enum_info.get('exhaustive')) and n_enum == len(cases) and 'VERIF_RUNS' not in os.environ
         extra_cov['enumerated_cases'] = n_enum
         extra_cov['sampled_runs'] = len(records) - n_enum
+        if len(records) - n_enum > 0:
+            # only the enumerated part of a mixed check is complete; the sampled part is a search
+            extra_cov['exhaustive_enumerated_part'] = extra_cov['exhaustive']
+            extra_cov['exhaustive'] = False
     return finish(chk, prop, tier, base_seed, jobs, records, harness_errors, det_checked, det_failed, t_start, extra_cov)
 
 
